@@ -379,16 +379,62 @@ def make_vv(d, n, kind, wgrid=None, Agrid=None):
                              "np.sqrt -> fresh r>=0 with r*r == x"], theory="QF_NRA", timeout_ms=60000, max_paths=3000)
 
 
+def make_vv_scaling(pts, wts, shear=False):
+    """d=2 with *concrete* samples and weights and a symbolic, arbitrarily ill-conditioned linear map
+    A = [[1, 0], [t, s]], s in [1e-6, 1e6] (t = 0 unless shear): the metric of the image equals the metric of the original.
+    One or two real unknowns keep the conditioning questions (rank / condition-number tests inside the code) within nlsat's reach."""
+    n = len(pts)
+    X = [[Fraction(c) for c in p] for p in pts]
+    W = [Fraction(w) for w in wts]
+
+    def harness(ctx: PathCtx):
+        sc = real(ctx, "s", lo=Fraction(1, 10 ** 6), hi=10 ** 6)
+        t = real(ctx, "t", lo=-1000, hi=1000) if shear else SymReal.const(0)
+        xs = [[SymReal.const(c) for c in row] for row in X]
+        w = [SymReal.const(c) for c in W]
+        try:
+            cv = SymReal.lift(scalar(run_vv(sarr(xs), sarr(w), 2)))
+            ys = [[xs[i][0], t * xs[i][0] + sc * xs[i][1]] for i in range(n)]
+            cv2 = SymReal.lift(scalar(run_vv(sarr(ys), sarr(w), 2)))
+        except DomainError as e:
+            ctx.fail("radicand-nonnegative", str(e))
+            return None
+        ctx.check("cv>=0", z3.And(le(0, cv), le(0, cv2)))
+        ctx.check("invariant-under-ill-conditioned-linear-maps", eq(cv * cv, cv2 * cv2))
+        return None
+
+    def replay(m, label, v):
+        x = np.array([[float(c) for c in row] for row in X])
+        w = np.array([float(c) for c in W])
+        cands = [(float(m.get("s", 1.0)), float(m.get("t", 0.0)))] + [(sv, 0.0) for sv in (1e-6, 1e-5, 1e-4, 1e4, 1e5, 1e6)]
+        cv = float(tools.volume_variation(x, w))
+        for sv, tv in cands:
+            A = np.array([[1.0, 0.0], [tv if shear else 0.0, sv]])
+            cv2 = float(tools.volume_variation(x @ A.T, w))
+            if not math.isclose(cv, cv2, rel_tol=1e-5, abs_tol=1e-8):
+                return {"reproduced": True, "signature": "volume_variation:affine-invariant:d2-ill-conditioned", "payload": {"x": x.tolist(), "w": w.tolist(), "A": A.tolist(), "cv": cv, "cv_image": cv2},
+                        "what": f"volume_variation of {x.tolist()} (weights {w.tolist()}) = {cv}, of its image under A={A.tolist()} (condition number {max(sv, 1 / sv):.3g}) = {cv2}"}
+        return {"reproduced": False, "what": f"images under the model's map and under condition numbers up to 1e6 all give {cv}"}
+
+    return Obligation(f"vv-scaling-d2-n{n}{'-shear' if shear else ''}", harness, replay=replay, encodes=[tools.volume_variation],
+                      bounds=f"d=2, {n} concrete samples {pts} with weights {wts}; A = [[1,0],[t,s]], s in [1e-6,1e6]" + (", t in [-1000,1000]" if shear else ", t=0"),
+                      stubs=["np.linalg.matrix_rank -> det==0 model", "np.linalg.cond -> exact 2-norm condition number (closed form, d=2)", "np.linalg.inv -> closed form (d<=2)",
+                             "np.sqrt -> fresh r>=0 with r*r == x"], theory="QF_NRA", timeout_ms=60000, max_paths=3000)
+
+
 def obligations(tier):
     obs = [make_ess(2), make_ess(3), make_ess_rounding(2), make_ess_rounding(2, "uniform"), make_compute_ess(2), make_compute_ess(3),
            make_trim(2, 2, "9/10"), make_trim(3, 3, "9/10"), make_trim(3, 2, "1/2"),
            make_vv(1, 2, "nonneg"), make_vv(1, 2, "affine"), make_vv(1, 2, "wscale"),
-           make_vv(1, 3, "affine", wgrid=(1, 1, 1)), make_vv(1, 3, "affine", wgrid=(1, 2, 5)), make_vv(1, 3, "wscale", wgrid=(3, 1, 2))]
+           make_vv(1, 3, "affine", wgrid=(1, 1, 1)), make_vv(1, 3, "affine", wgrid=(1, 2, 5)), make_vv(1, 3, "wscale", wgrid=(3, 1, 2)),
+           make_vv_scaling(((0, 0), (1, 0), (0, 1), (2, 3)), (1, 2, 3, 1)), make_vv_scaling(((0, 0), (1, 0), (0, 1), (2, 3)), (1, 2, 3, 1), shear=True),
+           make_vv_scaling(((1, 1), (2, 1), (1, 3)), (1, 1, 1))]
     # d=2 affine invariance (symbolic or ill-conditioned concrete A) is undecided by nlsat within the budget (unknown at 10 s/query):
     # not scheduled in the quick tier
     if tier == "thorough":
         obs += [make_ess(4), make_compute_ess(4), make_trim(4, 3, "9/10"), make_trim(3, 4, "99/100"), make_trim(4, 4, "1/2"),
                 make_vv(1, 3, "nonneg"), make_vv(1, 4, "affine", wgrid=(1, 1, 1, 1)), make_vv(1, 4, "wscale", wgrid=(1, 2, 3, 4)),
                 make_vv(2, 3, "nonneg", wgrid=(1, 1, 1)), make_vv(2, 3, "wscale", wgrid=(1, 2, 3)),
-                make_vv(2, 3, "affine", wgrid=(1, 2, 3), Agrid=((3, 1), (-2, 10 ** 4)))]
+                make_vv(2, 3, "affine", wgrid=(1, 2, 3), Agrid=((3, 1), (-2, 10 ** 4))),
+                make_vv_scaling(((0, 0), (3, 1), (-1, 2), (2, -2), (5, 5)), (1, 4, 2, 2, 1), shear=True), make_vv_scaling(((0, 1), (1, 0), (1, 1), (-1, -1)), (5, 1, 1, 1))]
     return obs
